@@ -1,3 +1,4 @@
+import Casket.Model.Path
 /-
 Model of the message path of caskethttp/proxy:
   proxy.go         createUpstreamRequest, the per-attempt part of Proxy.ServeHTTP
@@ -225,6 +226,10 @@ def sHttps : Str := [104, 116, 116, 112, 115]
 def sSrv : Str := [115, 114, 118]
 def sSrvHttps : Str := [115, 114, 118, 43, 104, 116, 116, 112, 115]
 
+/-- `URL.EscapedPath()` of a URL with the given Path and RawPath: RawPath when it is a valid
+encoding of Path, else the default escaping of Path (model of net/url in Model/Path.lean) -/
+def escapedOf (path raw : Str) : Str := Casket.Path.escapedPath { path := path, rawPath := raw, rawQuery := [] }
+
 /-- the Director closure of `NewSingleHostReverseProxy` for a non-unix target -/
 def director (t : URL) (without : Str) (u : URL) : URL :=
   let scheme := if t.scheme == sSrv then sHttp else if t.scheme == sSrvHttps then sHttps else t.scheme
@@ -235,7 +240,8 @@ def director (t : URL) (without : Str) (u : URL) : URL :=
     if opaque1 != [] || t.opaq != [] then singleJoiningSlash (prefer t.opaq t.path) (prefer opaque1 path1)
     else opaque1
   let raw2 :=
-    if raw1 != [] || t.rawPath != [] then singleJoiningSlash (prefer t.rawPath t.path) (prefer raw1 path1)
+    if raw1 != [] || t.rawPath != [] then
+      singleJoiningSlash (escapedOf t.path t.rawPath) (escapedOf path1 raw1)
     else raw1
   let path2 := singleJoiningSlash t.path path1
   let query :=
